@@ -81,7 +81,10 @@ pub fn iso_case(args: &Args, idx: u64) -> CaseOut {
     let h = gen(args.seed, idx);
     let mut out = CaseOut { class: "history".into(), ..Default::default() };
     let mut rng = Rng::derive(args.seed, "c08k", idx);
-    let rig = Rig::ok(Disc::Full);
+    // what the store advertises about discoverability has no bearing on counters
+    let disc = *Rng::derive(args.seed, "c08disc", idx).pick(&[Disc::Full, Disc::Full, Disc::Forced, Disc::OnlyNonDiscoverable]);
+    let rig = Rig::ok(disc);
+    out.counters.push((format!("histories_over_store_{disc:?}"), 1));
     let cfg = AuthCfg { counters: h.counters_cfg, hmac: HmacCfg::WithoutUv, ..Default::default() };
     let mut auth = rig.auth(cfg);
     let rp = "example.com";
@@ -241,6 +244,65 @@ pub fn iso_case(args: &Args, idx: u64) -> CaseOut {
         }
         out.counters.push(("imported_counterless_credentials_checked".into(), 1));
     }
+    // the same rule seen by a relying party through the client: every successful Client::authenticate
+    // reports the value the store held before it plus one, which is what the store holds afterwards -
+    // whatever userVerification asks for, with and without a PRF evaluation, over an authenticator whose
+    // hmac-secret support is configured either way (a refused ceremony may consume a value; a successful
+    // one consumes exactly one)
+    {
+        use passkey_client::DefaultClientData;
+        use passkey_types::webauthn::{AuthenticationExtensionsClientInputs, AuthenticationExtensionsPrfInputs, AuthenticationExtensionsPrfValues, UserVerificationRequirement as Uvr};
+        let mut r2 = Rng::derive(args.seed, "c08client", idx);
+        let rig2 = Rig::ok(disc);
+        let hmac = *r2.pick(&[HmacCfg::UvOnly, HmacCfg::WithoutUv, HmacCfg::None]);
+        let id = vec![0x66u8; 16];
+        let start = *r2.pick(&[0u32, 1, 9000, 0x7FFF_FFFF, 0xFFFF_FFF0]);
+        let secrets = match r2.below(3) {
+            0 => None,
+            1 => Some((r2.bytes(32), None)),
+            _ => Some((r2.bytes(32), Some(r2.bytes(32)))),
+        };
+        let (pk, _, _) = seeded_passkey(&mut r2, rp, &id, Some(b"u"), Some(start), secrets);
+        rig2.store.insert_raw(pk);
+        let mut client = rig2.client(AuthCfg { counters: true, hmac, ..Default::default() });
+        let origin = crate::util::url("https://example.com");
+        let mut client_ok = 0u64;
+        for n in 0..r2.range(3, 8) {
+            let uvr = *r2.pick(&[Uvr::Discouraged, Uvr::Preferred, Uvr::Required]);
+            let prf = r2.bool();
+            let mut opts = crate::util::request_options(Some(rp), &[6u8; 16], if r2.bool() { Some(vec![descriptor(&id)]) } else { None }, uvr);
+            if prf {
+                opts.public_key.extensions = Some(AuthenticationExtensionsClientInputs {
+                    cred_props: None,
+                    prf: Some(AuthenticationExtensionsPrfInputs { eval: Some(AuthenticationExtensionsPrfValues { first: r2.bytes(8).into(), second: None }), eval_by_credential: None }),
+                    prf_already_hashed: None,
+                });
+            }
+            let before = rig2.store.snapshot().into_iter().find(|c| c.id == id).and_then(|c| c.counter);
+            let res = block_on(client.authenticate(&origin, opts, DefaultClientData));
+            let after = rig2.store.snapshot().into_iter().find(|c| c.id == id).and_then(|c| c.counter);
+            let what = format!("Client::authenticate {n}: userVerification {uvr:?}, prf requested {prf}, hmac-secret configuration {hmac:?}");
+            match (res, before) {
+                (Ok(cred), Some(b)) => {
+                    client_ok += 1;
+                    let reported = authdata::decode(&cred.response.authenticator_data.to_vec()).map(|a| a.counter).unwrap_or(u32::MAX / 3);
+                    if reported != b + 1 {
+                        viol(&mut out, "assertion does not report the previous counter plus one", format!("{what}: the store held {b} before the ceremony, the relying party is told {reported}"), 2000 + n);
+                    }
+                    if after != Some(reported) {
+                        viol(&mut out, "reported counter differs from the value then held in the store", format!("{what}: reported {reported}, stored {after:?}"), 2000 + n);
+                    }
+                }
+                (Err(_), Some(b)) => {
+                    if after.map_or(true, |a| a < b) {
+                        viol(&mut out, "stored counter became smaller after a failed assertion", format!("{what}: previous {b}, stored {after:?}"), 2000 + n);
+                    }
+                }
+                _ => {}
+            }
+        }
+        out.counters.push(("client_assertions".into(), client_ok));
+    }
     out.counters.push(("assertions".into(), assertions));
     out.counters.push(("boundary_steps".into(), boundary));
     let cls = start_class(&h);
@@ -256,7 +318,7 @@ pub fn run(args: &Args) -> Report {
         "C08",
         &args.tier,
         args.seed,
-        "histories of 5-50 assertions interleaved over 2-5 credentials with and without counters, start values 0, 1, 9000, 2^31-1, 2^31, 2^32-3, 2^32-2, 2^32-1, with and without PRF requests and a fresh registration, executed in crash-isolating workers; distinct by (start-value classes, counter configuration, number of credentials, history length bucket, registration); non-trivial when at least two assertions succeeded or a boundary start value is involved",
+        "histories of 5-50 assertions interleaved over 2-5 credentials with and without counters, start values 0, 1, 9000, 2^31-1, 2^31, 2^32-3, 2^32-2, 2^32-1, with and without PRF requests and a fresh registration, over stores advertising each discoverability support, followed by 3-7 Client::authenticate ceremonies (userVerification x PRF request x hmac-secret configuration x stored secrets), executed in crash-isolating workers; distinct by (start-value classes, counter configuration, number of credentials, history length bucket, registration); non-trivial when at least two assertions succeeded or a boundary start value is involved",
     );
     let profile = args.engine.clone().unwrap_or_else(|| "native".to_string());
     rep.obs("arithmetic_profile", json!(if profile == "release" { "wrapping (release)" } else { "overflow-checking (verif)" }));
